@@ -265,6 +265,12 @@ func pureArg(x ast.Expr) bool {
 		return pureArg(v.X)
 	case *ast.UnaryExpr:
 		return v.Op == token.AND && pureArg(v.X)
+	case *ast.CallExpr:
+		// a getter without arguments on a pure receiver (claim.GetEventNonce(), msg.GetSigner())
+		if se, ok := v.Fun.(*ast.SelectorExpr); ok && len(v.Args) == 0 && pureArg(se.X) {
+			n := se.Sel.Name
+			return strings.HasPrefix(n, "Get") || strings.HasPrefix(n, "Is") || strings.HasPrefix(n, "Has") || n == "String" || n == "Bytes"
+		}
 	}
 	return false
 }
@@ -391,6 +397,18 @@ func substPureCalls(e *Engine, p *packages.Package, f *ast.File, body *ast.Block
 			}
 			return !bad
 		})
+		uses := map[string]int{}
+		ast.Inspect(expr, func(m ast.Node) bool {
+			if id, ok := m.(*ast.Ident); ok {
+				uses[id.Name]++
+			}
+			return true
+		})
+		for nm, a := range subst {
+			if _, isCall := a.(*ast.CallExpr); isCall && uses[nm] > 1 {
+				bad = true
+			}
+		}
 		if bad {
 			return true
 		}
@@ -552,6 +570,7 @@ func inlineWithErrCheck(e *Engine, p *packages.Package, f *ast.File, s, next ast
 type errCont struct {
 	errName string
 	ret     *ast.BlockStmt
+	tail    bool // `return h(..)`: the callee's returns are the caller's returns
 }
 
 func inlineInChildren(e *Engine, p *packages.Package, f *ast.File, s ast.Stmt, callees map[*types.Func]*inlCallee) int {
@@ -658,6 +677,12 @@ func inlineStmt(e *Engine, p *packages.Package, f *ast.File, s ast.Stmt, callees
 		if len(x.Results) == 1 {
 			if c, ok := x.Results[0].(*ast.CallExpr); ok {
 				if cal := calleeOfCall(p, c, callees); cal != nil {
+					if cal.obj.Type().(*types.Signature).Results().Len() >= 1 {
+						// tail call: the callee's returns become the caller's
+						if pre, _ := expandCallOpt(e, p, f, c, cal, &errCont{tail: true}); pre != nil {
+							return pre
+						}
+					}
 					pre, res := expandCall(e, p, f, c, cal)
 					if pre == nil || len(res) == 0 {
 						return nil
@@ -792,7 +817,11 @@ func expandCallOpt(e *Engine, p *packages.Package, f *ast.File, c *ast.CallExpr,
 		needImports[alias] = pk.Path()
 		return alias
 	}
-	for i := 0; i < sig.Results().Len(); i++ {
+	tail := ec != nil && ec.tail
+	if tail {
+		ec = nil
+	}
+	for i := 0; i < sig.Results().Len() && !tail; i++ {
 		name := fmt.Sprintf("zzinl%dr%d", id, i)
 		resNames = append(resNames, name)
 		ts := types.TypeString(sig.Results().At(i).Type(), qual)
@@ -954,8 +983,19 @@ func expandCallOpt(e *Engine, p *packages.Package, f *ast.File, c *ast.CallExpr,
 		// the error result lives in errVar
 		resExprs[len(resExprs)-1] = ast.NewIdent(errVar)
 		pre = append(pre, &ast.AssignStmt{Lhs: []ast.Expr{ast.NewIdent("_")}, Tok: token.ASSIGN, Rhs: []ast.Expr{ast.NewIdent(resNames[len(resNames)-1])}})
-	} else {
+	} else if !tail {
 		rewriteReturns(copyDecl.Body, resNames, label)
+	}
+	if tail {
+		body = append(body, copyDecl.Body.List...)
+		pre = append(pre, &ast.BlockStmt{List: body})
+		for name, path := range needImports {
+			astutil.AddNamedImport(e.Fset, f, name, path)
+		}
+		if foldedOf != nil {
+			foldedOf[cal.obj]++
+		}
+		return pre, nil
 	}
 	body = append(body, copyDecl.Body.List...)
 	body = append(body, &ast.BranchStmt{Tok: token.BREAK, Label: ast.NewIdent(label)}) // a label must be used
